@@ -96,6 +96,7 @@ def check_line(ctx, case):
         or case["kind"] in ("wrong-token", "unnameable")
     ctx.case("line", {"tree": tree, "config": cfgk, "tokens": case["tokens"]}, nt, classes)
     results = []
+    wants = {}
     for label, tokens in [("line", case["tokens"])] + [(k, v) for k, v in sorted(case.get("variants", {}).items())]:
         from clikit.api.args.exceptions import NoSuchOptionException
 
@@ -124,6 +125,7 @@ def check_line(ctx, case):
                      sig=label if label != "line" else None)
             continue
         results.append((label, got, rc))
+        wants[label] = list(want)
         # through run(): exactly the selected handler, or none
         rec.calls = []
         out, err = BufferedOutputStream(), BufferedOutputStream()
@@ -165,6 +167,11 @@ def check_line(ctx, case):
             continue
         if label.startswith("tail") and (got[0] != "command" or base[0][1][0] != "command"):
             continue  # a different tail may not fit the command's arguments; selection is then not observable
+        if label.startswith("tail") and wants.get(label) != wants.get("line"):
+            # several default sub-commands: which one is the first PARSABLE one legitimately depends on the number
+            # of positionals, also of those after '--' (both lines agree with the reference model individually)
+            ctx.count("c03:tail-changes-first-parsable-default")
+            continue
         if got != base[0][1]:
             ctx.fail("line", "C03." + label.split("-")[0], case, list(base[0][1]), {"variant": label, "got": list(got)})
         elif rc is not None and base[0][2] is not None and label.startswith("alias"):
